@@ -4729,7 +4729,6 @@ def parseNestedParens(s, handleLiteral=1):
     @raise MismatchedNesting: Raised if the number or placement
     of opening or closing parenthesis is invalid.
     """
-    s = s.strip()
     inQuote = 0
     contentStack = [[]]
     try:
